@@ -182,6 +182,37 @@ def big_scenarios(ctx):
     return scs
 
 
+def real_scenarios(ctx):
+    """The real transport over each of the three real backends, dialled over loopback to an echo server that fragments its messages
+    (data frames + empty final frame, as Conn.Writer of coder / nhooyr does) or sends one frame per message."""
+    scs = []
+    q = ctx.quick()
+    cfgs = [("off", 0, 0), ("pm", 1, 0), ("pm", 6, 0), ("ct", 6, 15), ("ct", 1, 9), ("ct", 9, 32)]
+    if not q:
+        cfgs += [("pm", 9, 0), ("ct", 2, 8), ("ct", 5, 0), ("ct", 6, 1), ("pm", 3, 0), ("ct", 9, 15), ("off", 0, 15), ("ct", 0, 15)]
+    lens_pool = [[150, 27000, 3, 0, 5000, 20000], [0, 0, 1, 600], [511, 513, 512, 29000, 2], [9000, 9000, 9000, 100]]
+    k = 0
+    for backend in ("coder", "gorilla", "nhooyr"):
+        for server in ("frag", "single"):
+            for ci, (mode, level, bits) in enumerate(cfgs):
+                for pattern in ("pingpong", "lazy", "pairs"):
+                    lens = lens_pool[(k + ci) % len(lens_pool)]
+                    steps = []
+                    if pattern == "pingpong":
+                        for n in lens:
+                            steps += [{"a": "write", "n": n}, {"a": "read"}]
+                    elif pattern == "lazy":
+                        steps = [{"a": "write", "n": n} for n in lens] + [{"a": "read"}] * len(lens)
+                    else:
+                        for j in range(0, len(lens), 2):
+                            pair = lens[j:j + 2]
+                            steps += [{"a": "write", "n": n} for n in pair] + [{"a": "read"}] * len(pair)
+                    p = {"mode": mode, "level": level, "bits": bits, "backend": backend, "server": server, "content": CONTENTS[k % 3], "seed": 60 + k}
+                    scs.append({"id": "C13/real/%s-%s/%s-%d-%d/%s" % (backend, server, mode, level, bits, pattern), "kind": "wsreal", "p": p, "steps": steps})
+                    k += 1
+    return scs
+
+
 def run():
     ctx = Ctx("C13")
     ctx.harness_cmd = "vhwswindow"
@@ -198,8 +229,11 @@ def run():
         "(WsWindowConc with Excl=FALSE violates NoInterleave/HeadDecodable in the model)",
         "window sizes 2^31 and 2^32 are represented by 2^31-1 in the model (TLC integers); no scenario writes that many bytes",
         "QUIC: the real transport/quic.Transport runs over an in-memory quic.Connection (one byte pipe per unidirectional stream, "
-        "arbitrary read fragmentation); the WebTransport transport (identical framing code, concrete *webtransport.Session) and the real "
-        "network backends (coder/gorilla/nhooyr sockets, quic-go) are not exercised",
+        "arbitrary read fragmentation); the WebTransport transport (identical framing code, concrete *webtransport.Session) and quic-go's "
+        "network path are not exercised",
+        "real WebSocket backends (family real): websocket.New over coder / gorilla / nhooyr connections dialled over loopback TCP to an echo "
+        "server (fragmenting or single-frame); the one transport is writer and reader; messages stay below 32 KiB (the echo side's default "
+        "read limit is lifted, the sizes keep the lazy pattern inside the socket buffers)",
     ]
     # ---- L1: exhaustive model checks
     retry(ctx.l1, "WsWindow", "WsWindow_q.cfg")
@@ -285,6 +319,16 @@ def run():
                                  "the real transport fails exactly where the model predicts" if "ModelInvariant" in dv.get("bad", [])
                                  and len(dv.get("bad", [])) > 1 else "no divergence observed"))
     ctx.judge(scs, trace, verdicts, clause_filter=lambda sc, b: not sc.startswith("C13/diag/"))
+    # the real backends over loopback
+    real = real_scenarios(ctx)
+    nreal = 0
+    for backend in ("coder", "gorilla", "nhooyr"):     # one harness binary per backend (a backend package registers itself on import)
+        part = [s for s in real if s["p"]["backend"] == backend]
+        trace2 = ctx.run_scenarios(part, "c13real-" + backend, par=8, timeout=1500, cmd="vhwsreal-" + backend)
+        verdicts2, _ = retry(ctx.validate, trace2, "MonC13r", consts=MON_CONSTS, timeout=1200)
+        nreal += ctx.judge(part, trace2, verdicts2)
+    if nreal < len(real) // 2:
+        raise Inconclusive("only %d of %d real-backend scenarios could be judged (no loopback listener?)" % (nreal, len(real)))
     if ctx.violations:
         by = {}
         for sc, clause, _ in ctx.violations:
@@ -295,7 +339,8 @@ def run():
     ctx.finish(rule="scenarios = complete paths of the generator configurations of WsWindow.tla (configuration grid mode x level 0..9 x "
                     "window bits x message-class sequences; deep class sequences; eager/lazy/any read interleavings; gated interleavings "
                     "of two concurrent writers) replayed lock-step on a real websocket.New pair (in-memory Conn) and a real quic.New pair "
-                    "(in-memory Connection), plus free-running concurrent writers and multi-megabyte messages; non-trivial = scenario "
+                    "(in-memory Connection), plus free-running concurrent writers and multi-megabyte messages, plus the same model applied to the "
+                    "real transport over the three real WebSocket backends against a loopback echo server; non-trivial = scenario "
                     "whose trace was consumed completely by the monitor with a verdict",
                exhaustive=not q)
 
